@@ -188,7 +188,7 @@ def run(ctx):
     # corpus that runs every time: the delivery points of the listed (open) findings, on a configuration that reaches them
     from lib.common import known_findings
     for f in known_findings():
-        if f.get('property') == 'C17' and f.get('status') == 'open' and f.get('signature', '').count(':') >= 2:
+        if f.get('property') == 'C17' and f.get('status') == 'open' and f.get('signature', '').count(':') >= 2 and '|' in f['signature']:
             at = f['signature'].split(':', 2)[2]
             b = base_scen(random.Random(1), 900, 'fork')
             b['calls'][0]['params']['progress_bar'] = True
